@@ -1,4 +1,6 @@
 import TensorModel.Proofs.Views
+import TensorModel.Proofs.CopyCoord
+import TensorModel.Props.C17compat
 /-!
   C04 — views alias their source, copies never do, writes stay inside the view.
   Property theorems only; helper lemmas live in `TensorModel/Proofs/Views.lean`.
@@ -134,5 +136,129 @@ theorem view_of_transposed_requires_iterator (t v : Dense) (sls : List (Option S
         by_cases hsc : isScalar nap.shape = true
         · simp [hold, hsc] at hns
         · simp [hold, hsc, Dense.requiresIterator, hlen]
+
+/-- **Materialising is a coordinate-wise copy into fresh storage** (iterator path: the view or lazily transposed
+    tensor needs its iterator): the result has the source's shape, lives in a buffer that did not exist before, holds
+    at every coordinate `c` (its own row-major address) the source's element at `c` (the source's strided address),
+    and no cell that existed before is changed. Any rank, any strides, unmasked source. -/
+theorem materialize_by_coordinate (st st' : St) (t r : Dense)
+    (hmz : t.isMaterializable = true) (hit : t.requiresIterator = true) (hnm : t.mask = none) (hlen0 : t.win.len ≠ 0)
+    (hne : t.ap.shape ≠ [])
+    (hl : t.ap.strides.length = t.ap.shape.length) (hp : ∀ d ∈ t.ap.shape, 0 < d)
+    (hcap : t.win.len ≤ t.win.cap) (hbuf : t.win.buf < st.heap.size)
+    (hr : ∀ c ∈ allCoords t.ap.shape, 0 ≤ dot c t.ap.strides ∧ dot c t.ap.strides < (t.win.len : Int))
+    (hs : Has st t.win.buf t.win.off t.win.len)
+    (h : t.materialize st = .ok (st', some r)) :
+    r.ap.shape = t.ap.shape ∧ r.win.buf = st.heap.size ∧ r.win.off = 0 ∧
+    (∀ c ∈ allCoords t.ap.shape,
+      TM.cell st' r.win.buf (rowRank t.ap.shape c).toNat =
+        some (TM.cellD st t.win.buf (t.win.off + (dot c t.ap.strides).toNat))) ∧
+    (∀ b' k', b' < st.heap.size → TM.cell st' b' k' = TM.cell st b' k') := by
+  have hmask : t.isMasked = false := by
+    unfold Dense.isMasked; rw [hnm]; simpa using hlen0
+  have hnemp : t.shape.isEmpty = false := by
+    unfold Dense.shape; cases hsh : t.ap.shape with
+    | nil => exact absurd hsh hne
+    | cons _ _ => rfl
+  unfold Dense.materialize at h
+  simp only [hmz, Bool.not_true, Bool.false_eq_true, if_false, hnemp, bind, Except.bind, pure, Except.pure] at h
+  cases hfr : Dense.fresh st t.dt t.shape false (Array.replicate (totalSize t.shape).toNat Val.zero) t.eng with
+  | mk st1 r0 =>
+  rw [hfr] at h
+  simp only at h
+  simp only [Dense.fresh, St.alloc, Prod.mk.injEq] at hfr
+  obtain ⟨hst1, hr0⟩ := hfr
+  have hst1' : st1 = { st with heap := st.heap.push (Array.replicate (totalSize t.shape).toNat Val.zero) } := hst1.symm
+  have hsh0 : r0.ap.shape = t.ap.shape := by rw [← hr0]; rfl
+  have hstr0 : r0.ap.strides = calcStrides t.ap.shape := by rw [← hr0]; rfl
+  have hwin0 : r0.win = ⟨st.heap.size, 0, (prod t.ap.shape).toNat, (prod t.ap.shape).toNat⟩ := by
+    rw [← hr0]; simp [Dense.shape, totalSize]
+  have hmask0 : r0.mask = none := by rw [← hr0]
+  -- the iterator path
+  unfold Dense.copyDenseIter at h
+  simp only [hit, Bool.not_true, Bool.and_false, Bool.false_and, Bool.false_eq_true, if_false, bind, Except.bind] at h
+  have hdot : ∀ c, dot c r0.ap.strides = rowRank t.ap.shape c := by intro c; rw [hstr0]; rfl
+  obtain ⟨s2, h2, _, hv, hf⟩ := copyIterOffsets_by_coordinate st1 r0 t t.ap.shape hsh0 rfl
+    (by rw [hstr0, calcStrides_length]) hl hp (by rw [hwin0]; exact Nat.ne_of_gt hbuf)
+    (by rw [hwin0]; exact Nat.le_refl _) hcap
+    (by
+      intro c hc
+      rw [hdot, hwin0]
+      have hb := rowRank_bounds' t.ap.shape c (C17compat.allCoords_inBox _ _ hc)
+      have hpp : 0 ≤ prod t.ap.shape := by omega
+      simp only
+      omega)
+    hr
+    (by
+      have : (fun c => dot c r0.ap.strides) = rowRank t.ap.shape := by funext c; exact hdot c
+      rw [this, C17compat.allCoords_map_rowRank _ hp]
+      exact rangeI_pairwise _)
+    (by
+      rw [hwin0, hst1']
+      intro i hi
+      simp only [Nat.zero_add]
+      rw [cell_push_new]
+      have hi' : i < (prod t.ap.shape).toNat := hi
+      simp [Dense.shape, totalSize, hi'])
+    (by rw [hst1']; exact hs.push hbuf _)
+  rw [h2] at h
+  simp only [Dense.copyMaskIter, hmask, Bool.not_false, if_true, pure, Except.pure, Except.ok.injEq, Prod.mk.injEq,
+    Option.some.injEq] at h
+  obtain ⟨rfl, rfl⟩ := h
+  refine ⟨hsh0, by rw [hwin0], by rw [hwin0], ?_, ?_⟩
+  · intro c hc
+    have := hv c hc
+    rw [hdot, hwin0] at this
+    simp only [Nat.zero_add] at this
+    rw [hwin0]
+    refine this.trans ?_
+    rw [hst1']
+    congr 1
+    unfold cellD
+    rw [cell_push_lt _ _ _ _ hbuf]
+  · intro b' k' hb'
+    rw [hf b' k' (Or.inl (by rw [hwin0]; exact Nat.ne_of_lt hb')), hst1', cell_push_lt _ _ _ _ hb']
+
+
+/-- **`tensor.Copy` between tensors of which at least one needs its iterator (a view with gaps, a lazily transposed
+    tensor) or whose data orders differ copies by coordinate**: the destination's element at `c` becomes the source's
+    element at `c`, for any two well-formed layouts of the same shape over different buffers; no other cell of any
+    buffer changes — in particular no cell of the destination's parent outside the view. Unmasked source. -/
+theorem copy_by_coordinate (st : St) (dst src : Dense) (sh : Shape)
+    (hdt : dst.dt = src.dt) (hsd : dst.ap.shape = sh) (hss : src.ap.shape = sh)
+    (hit : (src.requiresIterator || dst.requiresIterator || !Dense.sameOrder dst src) = true)
+    (hnm : src.isMasked = false)
+    (hld : dst.ap.strides.length = sh.length) (hls : src.ap.strides.length = sh.length)
+    (hp : ∀ d ∈ sh, 0 < d) (hne : dst.win.buf ≠ src.win.buf)
+    (hcd : dst.win.len ≤ dst.win.cap) (hcs : src.win.len ≤ src.win.cap)
+    (hrd : ∀ c ∈ allCoords sh, 0 ≤ dot c dst.ap.strides ∧ dot c dst.ap.strides < (dst.win.len : Int))
+    (hrs : ∀ c ∈ allCoords sh, 0 ≤ dot c src.ap.strides ∧ dot c src.ap.strides < (src.win.len : Int))
+    (hinj : ((allCoords sh).map (fun c => dot c dst.ap.strides)).Nodup)
+    (hd : Has st dst.win.buf dst.win.off dst.win.len) (hs : Has st src.win.buf src.win.off src.win.len) :
+    ∃ st', Dense.copy st dst src = .ok (st', dst) ∧
+      (∀ c ∈ allCoords sh,
+        TM.cell st' dst.win.buf (dst.win.off + (dot c dst.ap.strides).toNat) =
+          some (TM.cellD st src.win.buf (src.win.off + (dot c src.ap.strides).toNat))) ∧
+      (∀ b' k', (b' ≠ dst.win.buf ∨ ∀ c ∈ allCoords sh, k' ≠ dst.win.off + (dot c dst.ap.strides).toNat) →
+        TM.cell st' b' k' = TM.cell st b' k') := by
+  obtain ⟨st', h1, _, hv, hf⟩ := copyIterOffsets_by_coordinate st dst src sh hsd hss hld hls hp hne hcd hcs hrd hrs hinj hd hs
+  refine ⟨st', ?_, hv, hf⟩
+  have hfast : (!dst.requiresIterator && !src.requiresIterator && Dense.sameOrder dst src) = false := by
+    cases h1 : src.requiresIterator <;> cases h2 : dst.requiresIterator <;> cases h3 : Dense.sameOrder dst src <;>
+      simp_all
+  unfold Dense.copy Dense.copyDenseIter
+  simp only [hdt, bne_self_eq_false, Bool.false_eq_true, if_false, hit, if_true, hfast, bind, Except.bind, h1,
+    Dense.copyMaskIter, hnm, Bool.not_false, pure, Except.pure]
+
+/-- non-vacuity: the stepped view `a[0:6:2]` of a six-element vector (window of five cells, stride 2) meets the
+    hypotheses, and its materialisation succeeds -/
+def mvSt : St := { heap := #[#[.src 0 0, .src 0 1, .src 0 2, .src 0 3, .src 0 4, .src 0 5]] }
+def mvView : Dense := { ap := { shape := [3], strides := [2], fin := true, o := { nonContig := true } },
+                        win := ⟨0, 0, 5, 5⟩, dt := "i16", view := true }
+example : mvView.isMaterializable = true ∧ mvView.requiresIterator = true ∧ mvView.mask = none ∧
+    (allCoords mvView.ap.shape).all (fun c => decide (0 ≤ dot c mvView.ap.strides) && decide (dot c mvView.ap.strides < 5)) = true ∧
+    (match mvView.materialize mvSt with
+     | .ok (s, some r) => r.ap.shape == [3] && (s.heap[1]? == some #[.src 0 0, .src 0 2, .src 0 4])
+     | _ => false) = true := by decide
 
 end TM.C04
